@@ -5,8 +5,25 @@ CONSTANTS Emit, Level
 D0 == IF Level = "quick"
       THEN {[k |-> "num"], [k |-> "big"]} \cup {[k |-> "str", s |-> s] : s \in {<<"x">>, <<"[", "{">>, <<"q">>}}
       ELSE {[k |-> "num"], [k |-> "big"], [k |-> "lit"]} \cup {[k |-> "str", s |-> s] : s \in {<<"x">>, <<"[", "{">>, <<"[", "]">>, <<",">>, <<"q">>}}
+\* deeper documents: arrays directly inside arrays, objects below them, up to five levels - "at every nesting level"
+N1 == [k |-> "num"]
+SX == [k |-> "str", s |-> <<"x">>]
+Arr1(V) == {[k |-> "arr", e |-> <<v>>] : v \in V}
+Arr2(V, W) == {[k |-> "arr", e |-> <<v, w>>] : v \in V, w \in W}
+Obj1(V) == {[k |-> "obj", m |-> <<<<key, v>>>>] : key \in Keys, v \in V}
+Deep0 == {N1, SX}
+DeepO == Objs2(Deep0)
+SmallO == {[k |-> "obj", m |-> <<<<"a", N1>>>>], [k |-> "obj", m |-> <<<<"a", N1>>, <<"b", SX>>>>], [k |-> "obj", m |-> <<>>]}
+DeepL1 == Arr1(Deep0 \cup DeepO) \cup Arr2(SmallO, SmallO)
+SmallL1 == {[k |-> "arr", e |-> <<N1>>], [k |-> "arr", e |-> <<[k |-> "obj", m |-> <<<<"a", N1>>, <<"b", SX>>>>]>>]}
+DeepL2 == Arr1(DeepL1) \cup Arr2(DeepL1, SmallL1) \cup Arr2(SmallL1 \cup SmallO, DeepL1)
+DeepL3 == Arr1(DeepL2)
+DeepOO == Obj1(DeepL1 \cup DeepL2)
+DeepAO == Arr1(DeepOO) \cup Arr1(Arr1(DeepOO))
+DeepV == DeepL2 \cup DeepL3 \cup DeepOO \cup DeepAO
+TopDeep == Obj1(DeepV) \cup {[k |-> "obj", m |-> <<<<"a", v>>, <<"b", w>>>>] : v \in SmallL1 \cup {N1}, w \in DeepL2 \cup DeepAO}
 D1 == D0 \cup Objs2(D0) \cup Arrs(D0)
-Top == Objs2(D1)
+Top == Objs2(D1) \cup TopDeep
 VARIABLE d
 Init == d \in Top
 Next == UNCHANGED d
@@ -15,9 +32,5 @@ P_C07 == Benign(d) => RoundTrip(d)
 \* the finding classes are real: each has a member that breaks the round trip (violated = witnessed)
 KF_empty_array_unwitnessed == ~(Class(d) = "empty-array" /\ ~RoundTrip(d))
 KF_pattern_unwitnessed == ~(Class(d) = "pattern-in-string" /\ ~RoundTrip(d))
-\* deeper documents for the table-driven run: one more level of nesting, sampled
-D2s == D0 \cup Objs2({[k |-> "num"], [k |-> "str", s |-> <<"x">>], [k |-> "arr", e |-> <<[k |-> "obj", m |-> <<<<"a", [k |-> "num"]>>>>]>>],
-                      [k |-> "obj", m |-> <<<<"a", [k |-> "arr", e |-> <<[k |-> "num"], [k |-> "num"]>>]>>>>],
-                      [k |-> "arr", e |-> <<[k |-> "arr", e |-> <<[k |-> "obj", m |-> <<>>]>>]>>]})
 EmitRow == ~Emit \/ PrintT(<<"TEST", ToJson([doc |-> d])>>)
 ====
